@@ -156,6 +156,9 @@ func properties() map[string]Property {
 	c19 = append(c19, Job{Harness: "H_C19_R", Args: []int64{14, 1}, Tier: "quick", Covers: []string{"C19.done"},
 		Bounds: "R(1,2): two clip rectangles side by side strictly inside the subject rectangle, all sides symbolic, the clips' y-relation free"})
 	c19 = append(c19, Job{Harness: "H_C19_R", Args: []int64{14, 0}, Tier: "thorough", Covers: []string{"C19.done"}, Bounds: "same, EvenOdd"})
+	for _, fr := range []int64{1, 0} {
+		c19 = append(c19, Job{Harness: "H_C19_R", Args: []int64{15, fr}, Tier: "thorough", Covers: []string{"C19.done"}, Bounds: f15 + "; args (family, fill rule)"})
+	}
 
 	ps["C19"] = Property{ID: "C19", Level: "model_checking",
 		Explain: "pointwise set identities between the solutions of the four clip types, decided per grid cell on every feasible path; area identities follow up to the band. Inputs with thousands of vertices are outside the bound",
@@ -331,6 +334,9 @@ func properties() map[string]Property {
 	}
 	for _, a := range [][]int64{{1, 2, 1}, {0, 4, 0}, {7, 2, 1}, {6, 4, 0}} {
 		c04 = append(c04, Job{Harness: "H_C04_R", Args: a, Tier: "thorough", Covers: []string{"C04.done"}, Bounds: c04b(a[0])})
+	}
+	for _, a := range [][]int64{{15, 4, 1}, {15, 3, 1}} {
+		c04 = append(c04, Job{Harness: "H_C04_R", Args: a, Tier: "thorough", Covers: []string{"C04.done"}, Bounds: f15 + "; args (family, clip type, fill rule)"})
 	}
 	ps["C04"] = Property{ID: "C04", Level: "model_checking",
 		Explain: "BooleanOpPolyTree64 and the flat result computed in one symbolic run on every feasible path: same polygons (bijection), children inside parents and inside no sibling (per grid cell), IsHole iff negatively oriented, levels alternate, a hole's parent is the innermost containing boundary",
